@@ -80,6 +80,9 @@ func c07Case(c *hx.Ctx, r *hx.RNG, idx int64) {
 	if r.Chance(30) {
 		n = r.Range(0, 9)
 	}
+	if r.Chance(3) {
+		n = r.Range(200, 700) // beyond the statement's 0..70: block-copy paths a kernel may grow for long vectors
+	}
 	// scalar kernels
 	switch name {
 	case "mul10WW":
